@@ -32,6 +32,15 @@ impl Certs {
         r?;
         Ok(Certs { dir })
     }
+    /// runs the generator again into the directories of this set (as a user renewing a set does)
+    pub fn regenerate(&self, no_expiry: bool) -> Result<()> {
+        let args = GenCertsArgs { server_out_path: self.dir.join("server"), client_out_path: self.dir.join("client"), no_expiry };
+        let gag = Gag::new();
+        let r = GenCertsRunner::from(args).run();
+        drop(gag);
+        r?;
+        Ok(())
+    }
     pub fn client(&self, f: &str) -> PathBuf {
         self.dir.join("client").join(f)
     }
